@@ -187,6 +187,34 @@ fn strat(tier: Tier) -> BoxedStrategy<TextCase> {
     prop_oneof![20 => wordy(false), 12 => wordy(true), 8 => line_case(tier.pick(20, 60), true), 4 => text_case_mix(60).prop_map(|mut c| { c.tok = 0; c }), 1 => big_line_case(tier.pick(120, 200))].boxed()
 }
 
+/// fixed large cases: a Replace op spanning hundreds of lines, lines of several KiB
+fn enum_large(_tier: Tier, f: &mut dyn FnMut(TextCase) -> bool) {
+    let mut cases = vec![];
+    // 300 / 600 lines, one word changed in every line (one big Replace op)
+    for n in [300usize, 600] {
+        let old: String = (0..n).map(|i| format!("alpha beta {} gamma\n", i)).collect();
+        let new: String = (0..n).map(|i| format!("alpha BETA {} gamma\n", i)).collect();
+        cases.push((old, new));
+    }
+    // one line of ~1000 words (8 KiB), one word changed; with and without multi-byte words
+    for w in ["word", "w\u{f6}rd\u{65e5}"] {
+        let mk = |changed: usize| -> String { (0..1000).map(|i| if i == changed { format!("CHANGED{} ", i) } else { format!("{}{} ", w, i) }).collect::<String>() + "\n" };
+        cases.push((format!("head\n{}tail\n", mk(usize::MAX)), format!("head\n{}tail\n", mk(517))));
+    }
+    // 40 lines of 300 bytes each replaced by similar lines, missing final newline
+    let old: String = (0..40).map(|i| format!("{} {}\r\n", "lorem ipsum dolor sit amet ".repeat(10), i)).collect::<String>() + "end";
+    let new: String = (0..40).map(|i| format!("{} {}\r\n", "lorem ipsum color sit amet ".repeat(10), i)).collect::<String>() + "end.";
+    cases.push((old, new));
+    for (old, new) in cases {
+        for (alg, bytes, opt) in [(0u8, false, 0u8), (1, true, 0), (0, false, 3)] {
+            let c = TextCase { old: crate::gen::BStr(old.clone().into_bytes()), new: crate::gen::BStr(new.clone().into_bytes()), tok: 0, alg, bytes, opt };
+            if !f(c) {
+                return;
+            }
+        }
+    }
+}
+
 impl Prop for C16 {
     type Case = TextCase;
     const ID: &'static str = "C16";
@@ -197,7 +225,17 @@ impl Prop for C16 {
         vec!["'line-break character' = CR or LF (the crate's own line convention)".into(), "the default 500 ms deadline variant is judged only by invariants that hold whether or not it expires".into()]
     }
     fn stages(tier: Tier) -> Vec<Stage<TextCase>> {
-        vec![Stage { name: "random", kind: StageKind::Random { strategy: strat, cases: tier.pick(600_000, 3_000_000) } }]
+        vec![
+            Stage {
+                name: "large",
+                kind: StageKind::Enumerate {
+                    scope: "fixed large cases: Replace ops of 300 and 600 lines, single lines of ~1000 words (8 KiB, ASCII and multi-byte), 40 CRLF lines of 300 bytes without final newline; x 3 configurations".into(),
+                    exhaustive: true,
+                    gen: enum_large,
+                },
+            },
+            Stage { name: "random", kind: StageKind::Random { strategy: strat, cases: tier.pick(600_000, 3_000_000) } },
+        ]
     }
     fn check(case: &TextCase, obs: &mut Obs) -> Verdict {
         check_case(case, obs)
